@@ -199,10 +199,20 @@ class Executor:
     def check(self, st, *extra):
         self.queries += 1
         t0 = time.time()
-        r = self.solver.check(*((st.pc if st is not None else []) + self.tc.assumptions + list(extra)))
-        self.solver_time += time.time() - t0
+        cs = (st.pc if st is not None else []) + self.tc.assumptions + list(extra)
+        r = self.solver.check(*cs)
         if r == z3.unknown:
-            raise Unsupported("solver returned unknown: %s" % self.solver.reason_unknown())
+            # one retry on a fresh solver with twice the time: a loaded machine (or a timer hiccup) must not turn a
+            # decidable query into a refusal
+            why = self.solver.reason_unknown()
+            s2 = z3.Solver()
+            s2.set("timeout", 120000)
+            r = s2.check(*cs)
+            self.retried = getattr(self, "retried", 0) + 1
+            if r == z3.unknown:
+                self.solver_time += time.time() - t0
+                raise Unsupported("solver returned unknown: %s / %s" % (why, s2.reason_unknown()))
+        self.solver_time += time.time() - t0
         return r == z3.sat
 
     def feasible(self, st, cond):
